@@ -22,9 +22,10 @@ theorem inv1_begin {s s' : State} {a : ActorId} {c : Choice} (h : Inv1 s)
   have h2a := h2 a
   have h5a := h5 a
   have h6a := h6 a
+  simp only [EHold, THold, SHold, BeginWf] at h1 h2 h5 h6 h1a h2a h5a h6a
   unfold stepBegin at hs
   conc_split hs
-  all_goals inv1_close h1 h2 h5 h6 a
+  all_goals inv1_close h1 h2 h3 h4 h5 h6 a
 
 set_option maxHeartbeats 1000000 in
 theorem inv1_commit {s s' : State} {a : ActorId} {c : Choice} (h : Inv1 s)
@@ -34,9 +35,10 @@ theorem inv1_commit {s s' : State} {a : ActorId} {c : Choice} (h : Inv1 s)
   have h2a := h2 a
   have h5a := h5 a
   have h6a := h6 a
+  simp only [EHold, THold, SHold, BeginWf] at h1 h2 h5 h6 h1a h2a h5a h6a
   unfold stepCommit at hs
   conc_split hs
-  all_goals inv1_close h1 h2 h5 h6 a
+  all_goals inv1_close h1 h2 h3 h4 h5 h6 a
 
 set_option maxHeartbeats 1000000 in
 theorem inv1_abort {s s' : State} {a : ActorId} {c : Choice} (h : Inv1 s)
@@ -46,9 +48,10 @@ theorem inv1_abort {s s' : State} {a : ActorId} {c : Choice} (h : Inv1 s)
   have h2a := h2 a
   have h5a := h5 a
   have h6a := h6 a
+  simp only [EHold, THold, SHold, BeginWf] at h1 h2 h5 h6 h1a h2a h5a h6a
   unfold stepAbort at hs
   conc_split hs
-  all_goals inv1_close h1 h2 h5 h6 a
+  all_goals inv1_close h1 h2 h3 h4 h5 h6 a
 
 set_option maxHeartbeats 1000000 in
 theorem inv1_after {s s' : State} {a : ActorId} {c : Choice} (h : Inv1 s)
@@ -58,9 +61,10 @@ theorem inv1_after {s s' : State} {a : ActorId} {c : Choice} (h : Inv1 s)
   have h2a := h2 a
   have h5a := h5 a
   have h6a := h6 a
+  simp only [EHold, THold, SHold, BeginWf] at h1 h2 h5 h6 h1a h2a h5a h6a
   unfold stepAfter at hs
   conc_split hs
-  all_goals inv1_close h1 h2 h5 h6 a
+  all_goals inv1_close h1 h2 h3 h4 h5 h6 a
 
 set_option maxHeartbeats 1000000 in
 theorem inv1_use {s s' : State} {a : ActorId} {c : Choice} (h : Inv1 s)
@@ -70,9 +74,10 @@ theorem inv1_use {s s' : State} {a : ActorId} {c : Choice} (h : Inv1 s)
   have h2a := h2 a
   have h5a := h5 a
   have h6a := h6 a
+  simp only [EHold, THold, SHold, BeginWf] at h1 h2 h5 h6 h1a h2a h5a h6a
   unfold stepUse at hs
   conc_split hs
-  all_goals inv1_close h1 h2 h5 h6 a
+  all_goals inv1_close h1 h2 h3 h4 h5 h6 a
 
 set_option maxHeartbeats 1000000 in
 theorem inv1_sess {s s' : State} {a : ActorId} {c : Choice} (h : Inv1 s)
@@ -82,9 +87,10 @@ theorem inv1_sess {s s' : State} {a : ActorId} {c : Choice} (h : Inv1 s)
   have h2a := h2 a
   have h5a := h5 a
   have h6a := h6 a
+  simp only [EHold, THold, SHold, BeginWf] at h1 h2 h5 h6 h1a h2a h5a h6a
   unfold stepSess at hs
   conc_split hs
-  all_goals inv1_close h1 h2 h5 h6 a
+  all_goals inv1_close h1 h2 h3 h4 h5 h6 a
 
 set_option maxHeartbeats 1000000 in
 theorem inv1_close {s s' : State} {a : ActorId} {c : Choice} (h : Inv1 s)
@@ -94,9 +100,10 @@ theorem inv1_close {s s' : State} {a : ActorId} {c : Choice} (h : Inv1 s)
   have h2a := h2 a
   have h5a := h5 a
   have h6a := h6 a
+  simp only [EHold, THold, SHold, BeginWf] at h1 h2 h5 h6 h1a h2a h5a h6a
   unfold stepClose at hs
   conc_split hs
-  all_goals inv1_close h1 h2 h5 h6 a
+  all_goals inv1_close h1 h2 h3 h4 h5 h6 a
 
 set_option maxHeartbeats 1000000 in
 theorem inv1_exp {s s' : State} {a : ActorId} {c : Choice} (h : Inv1 s)
@@ -106,9 +113,10 @@ theorem inv1_exp {s s' : State} {a : ActorId} {c : Choice} (h : Inv1 s)
   have h2a := h2 a
   have h5a := h5 a
   have h6a := h6 a
+  simp only [EHold, THold, SHold, BeginWf] at h1 h2 h5 h6 h1a h2a h5a h6a
   unfold stepExp at hs
   conc_split hs
-  all_goals inv1_close h1 h2 h5 h6 a
+  all_goals inv1_close h1 h2 h3 h4 h5 h6 a
 
 set_option maxHeartbeats 1000000 in
 theorem inv1_idle {s s' : State} {a : ActorId} {c : Choice} (h : Inv1 s)
@@ -118,9 +126,10 @@ theorem inv1_idle {s s' : State} {a : ActorId} {c : Choice} (h : Inv1 s)
   have h2a := h2 a
   have h5a := h5 a
   have h6a := h6 a
+  simp only [EHold, THold, SHold, BeginWf] at h1 h2 h5 h6 h1a h2a h5a h6a
   unfold stepIdle at hs
   conc_split hs
-  all_goals inv1_close h1 h2 h5 h6 a
+  all_goals inv1_close h1 h2 h3 h4 h5 h6 a
 
 theorem inv1_step {s s' : State} {a : ActorId} {c : Choice} (h : Inv1 s)
     (hs : step s a c = some s') : Inv1 s' := by
